@@ -8,6 +8,8 @@ import GaleneVerif.Engine.Token
 import GaleneVerif.Engine.Auth
 import GaleneVerif.Engine.FuzzMisc
 import GaleneVerif.Engine.Paths
+import GaleneVerif.Engine.Writer
+import GaleneVerif.Engine.Store
 /-
 Line-protocol driver.  usage: driver <engine> [oracle-only] < trace
 `oracle-only` (failing-input search): model/impl mismatches do not end the case;
@@ -81,7 +83,9 @@ def engines : List (String × EngineDef) :=
     ("token", Galene.Engine.Token.engine),
     ("auth", Galene.Engine.Auth.engine),
     ("fuzzmisc", Galene.Engine.FuzzMisc.engine),
-    ("paths", Galene.Engine.Paths.engine) ]
+    ("paths", Galene.Engine.Paths.engine),
+    ("writer", Galene.Engine.Writer.engine),
+    ("store", Galene.Engine.Store.engine) ]
 
 def main (args : List String) : IO UInt32 := do
   let (name?, oracleOnly) := match args with
